@@ -488,6 +488,14 @@ Definition apply_builtin (run : runner) (b : builtin) (args : list value)
       | _ => throw s KArity []
       end
     | BAll => inputs_of args inp s (fun items => ret (put_out s items) [])
+    | BKeys =>
+      (* the keys of a map, in an unspecified order (here: the model's) *)
+      match args with
+      | [VMap m] => ret (put_out s (map fst m)) []
+      | [VOpaque] | [VExc _ _] | [VClos _ _ _ _ _ _] => unsup s
+      | [_] => throw s KOther []
+      | _ => throw s KArity []
+      end
     | BRange =>
       match args with
       | [_] | [_; _] =>
